@@ -24,5 +24,5 @@ CHECK = {
     "assumptions": ["`resolved` maps are non-nil and packages = keys(versions), as LockImageConfiguration builds them (WF in the theorems)",
                     "architecture names are distinct and none is called `index`",
                     "hashes are outside the model: checksums are recomputed by the harness from the package files"],
-    "text": "Proved for all inputs: unify_index_common, unify_arch_exact, unify_missing_dead, hideProvided_order_free, ranges_partition/ranges_cover (over regenerated expressions), installable_exact, unify_perm_invariant_partial/_common; constrain_locks, constrain_sub, compare_prefers_existing, minFunc_prefers, depLoop_inv/getDeps_inv/go_inv and relock_fixpoint_partial on the resolver model (unbounded universes without provides and install_if, any dependency shape, pinned or unpinned indexes: a successful re-resolution of a lock of a closed set with unique (name, version) returns exactly that set). The full fixpoint statement and the full order-independence are FALSE on the pinned tree (F09a_witness, F09g_witness proved and replayed). Not proved: that the re-resolution succeeds, and the fixpoint in the presence of provides; there the check relies on the round-trip oracle evaluated in Lean on every Go output and on Go = Impl. Ten finding classes (F09a-F09j) are decided by the Lean driver; every failing round trip outside them, or any Go/Impl difference, is a violation.",
+    "text": "Proved for all inputs: unify_index_common, unify_arch_exact, unify_meets_spec, unify_ok_of_mustLock, resolvedOf_wf, lockOf_lockList, unify_missing_dead, hideProvided_order_free, ranges_partition/ranges_cover (over regenerated expressions), installable_exact, unify_perm_invariant_partial/_common; constrain_locks, constrain_sub, compare_prefers_existing, minFunc_prefers, depLoop_inv/getDeps_inv/go_inv and relock_fixpoint_partial on the resolver model (unbounded universes without provides and install_if, any dependency shape, pinned or unpinned indexes: a successful re-resolution of a lock of a closed set with unique (name, version) returns exactly that set). The full fixpoint statement and the full order-independence are FALSE on the pinned tree (F09a_witness, F09g_witness proved and replayed). Not proved: that the re-resolution succeeds, and the fixpoint in the presence of provides; there the check relies on the round-trip oracle evaluated in Lean on every Go output and on Go = Impl. Ten finding classes (F09a-F09j) are decided by the Lean driver; every failing round trip outside them, or any Go/Impl difference, is a violation.",
 }
